@@ -310,11 +310,29 @@ def r5_consumer_accounting(prog, rep: Report, pf: PoolFacts):
         # a consumer that does not order its output needs the chunks only: `for chunk in chunks`
         chunk_loops = [st for st in loop.body if isinstance(st, ast.For) and recv is not None and isinstance(st.iter, ast.Name)
                        and st.iter.id == recv[1] and isinstance(st.target, ast.Name)] if not pair_loops else []
-        if recv is None or len(pair_loops) + len(chunk_loops) != 1:
+        direct_pairs = None
+        if recv is None:
+            # the receive helper may hand out one list of (index, chunk) pairs, walked directly:
+            #   for i, c in self._get_results():   /   pairs = self._get_results(); for i, c in pairs:   /   for i, c in zip(*self._get_results()):
+            def _is_recv_call(e) -> bool:
+                if isinstance(e, ast.Name):
+                    e = flow.expand(e)
+                if isinstance(e, ast.Call) and src(e.func) == "zip" and len(e.args) == 1 and isinstance(e.args[0], ast.Starred):
+                    e = e.args[0].value
+                    if isinstance(e, ast.Name):
+                        e = flow.expand(e)
+                return isinstance(e, ast.Call) and isinstance(e.func, ast.Attribute) and prog.resolve(pf.pool, e.func.attr) is pf.get_results
+            cands = [st for st in loop.body if isinstance(st, ast.For) and isinstance(st.target, ast.Tuple) and len(st.target.elts) == 2
+                     and _is_recv_call(st.iter)]
+            if len(cands) == 1:
+                direct_pairs = cands[0]
+        if direct_pairs is None and (recv is None or len(pair_loops) + len(chunk_loops) != 1):
             rep.unrec("C01.R5", f, "accounting", "receive statement `idx, chunks = self._get_results()` / loop over zip(idx, chunks) not found")
             continue
-        pl = (pair_loops or chunk_loops)[0]
-        if pair_loops:
+        pl = direct_pairs if direct_pairs is not None else (pair_loops or chunk_loops)[0]
+        if direct_pairs is not None:
+            ri, rc = (src(x) for x in pl.target.elts)
+        elif pair_loops:
             def _uncopied(a):
                 while isinstance(a, ast.Call) and src(a.func) in ("list", "tuple") and len(a.args) == 1 and not a.keywords:
                     a = a.args[0]               # zip(list(indices), list(chunks)) pairs the same items
@@ -456,7 +474,15 @@ def r6_conservation(prog, rep: Report, pf: PoolFacts):
                 if isinstance(v, ast.Tuple) and len(v.elts) == 2 and src(v.elts[0]) == f"[{ri}]" and src(v.elts[1]) == f"[{rc}]" \
                         and r.lineno > st.lineno:
                     direct = r
-        if apps and not (ri in apps or rc in apps):
+        # one list of (index, chunk) pairs instead of two role lists: the pair is appended as a tuple to a list that every return
+        # hands out (or returned directly as a one-element list)
+        pair_txt = f"({ri}, {rc})"
+        single_rets = [src(r.value) for r in returns_of(f.node) if r.value is not None and not isinstance(r.value, ast.Tuple)]
+        if apps and pair_txt in apps and not ret_roles and apps[pair_txt] in single_rets:
+            rep.ok("C01.R6", f, role, f"{pair_txt} appended to `{apps[pair_txt]}`, the list of pairs that is returned")
+        elif not apps and not ret_roles and any(t in (f"[{pair_txt}]",) for t in single_rets):
+            rep.ok("C01.R6", f, role, f"returned directly as [{pair_txt}]")
+        elif apps and not (ri in apps or rc in apps):
             # the pair is appended in another form (one list of pairs): not the two role lists this rule follows
             rep.unrec("C01.R6", f, role, f"({ri}, {rc}) are handed on as {sorted(apps)}, not appended to two role lists", st.lineno)
         elif apps:
